@@ -75,6 +75,12 @@ CHECKS = {
    design_ref="DESIGN.md section 6 C11",
    note=COMMON_NOTE + "Hand-modelled: Model/Pending.v. Idealisation: a commit built on another history of equal length fails authentication. Defect F6 (stale detached commit applied) found and repaired (fix: e60fc971).",
    technique="Coq proof over life-cycle state machine + race correspondence"),
+ "C03": dict(
+   category="proof",
+   text="Coq theorems (Props/C03.v): coverage - the bytes that are signed (AuthenticatedContentTBS in SignContent) determine protocol version, wire format, the whole FramedContent (group id, epoch, sender, authenticated data, content) and for member senders the receiver's GroupContext; the MACed bytes (TBM) additionally determine signature and confirmation tag; a PrivateMessage is determined by its content AAD, encrypted sender data and ciphertext; with unforgeable signature and MAC (hypotheses of the theorem) an accepted public message carries a content its sender signed for the receiver's own group context. All over the type table regenerated from the source on every run. Tie: membership tags of all member public messages recomputed in Coq from wire bytes (model TBM + Gallina HMAC-SHA-256) equal the tags in the messages, flipped copies are refused by the model, the real signatures verify over the bytes the model says are signed. Search oracle, exhaustive on the implementation: every single-bit flip and truncation of public/encrypted commits and proposals, application messages, Welcomes, GroupInfos, trees; byte-range splices; replays into later epochs; cross-group deliveries; insider commits (short/long update path, foreign path key, wrong parent hash, wrong confirmation tag re-MACed): always an error, never a panic; genuine messages reported with the true sender, payload and authenticated data.",
+   design_ref="DESIGN.md section 6 C03",
+   note=COMMON_NOTE + "Hand-modelled: Model/Framing.v (layout of TBS/TBM/SignContent/AADs over generated types). Unforgeability of signatures/MAC are hypotheses of the acceptance theorems. Defect F1 (short update path -> panic in decap) found with the insider hook and repaired (fix: 9969c420).",
+   technique="Coq proof (field coverage / authenticity under ideal primitives) + in-Coq MAC recomputation + exhaustive corruption sweeps"),
 }
 NOT_YET = {}
 props = [json.loads(l) for l in open(os.path.join(V, "properties.jsonl"))]
